@@ -102,6 +102,7 @@ type taskState struct {
 
 	// throttler protocol as seen by the wrapper
 	asked, admitted, started, ended bool
+	inWork                          bool // parked in / executing a work seam (processor, trie read, send)
 	runningAtCheck, windowAtCheck   int
 }
 
@@ -141,8 +142,8 @@ func (w *c43world) taskFor(gid uint64) *taskState {
 // counts must be called with the lock held: tasks that asked and are between start and end; tasks admitted but not started.
 func (w *c43world) counts() (running, window int) {
 	for _, t := range w.tasks {
-		if t.asked && t.started && !t.ended {
-			running++
+		if t.asked && t.started && (!t.ended || t.inWork) {
+			running++ // a task that still works after having called EndProcessing is still running
 		}
 		if t.asked && t.admitted && !t.started {
 			window++
@@ -164,6 +165,28 @@ func (w *c43world) label(what string) string {
 func (w *c43world) register(task int) {
 	w.mu.Lock()
 	w.taskOf[simkit.GoID()] = task
+	w.mu.Unlock()
+}
+
+// work is a work seam of a task: the goroutine parks there; a task found working after its EndProcessing
+// (or without StartProcessing) still counts as running.
+func (w *c43world) work(what string) {
+	gid := simkit.GoID()
+	w.mu.Lock()
+	t := w.taskFor(gid)
+	t.inWork = true
+	if t.asked && t.started && t.ended {
+		running, _ := w.counts()
+		w.log = append(w.log, fmt.Sprintf("  t%d works in %s after its EndProcessing, running=%d", t.id, what, running))
+		if running > w.max && w.violKind == "" {
+			w.violKind = "work-after-end"
+			w.violMsg = fmt.Sprintf("task %d is working (%s) after it called EndProcessing; %d tasks run at the same time, max %d", t.id, what, running, w.max)
+		}
+	}
+	w.mu.Unlock()
+	w.parker.Gate(w.label(what))
+	w.mu.Lock()
+	t.inWork = false
 	w.mu.Unlock()
 }
 
@@ -283,14 +306,14 @@ type stubProcessor struct{ w *c43world }
 func (sp *stubProcessor) Validate(data process.InterceptedData, _ core.PeerID) error {
 	d := data.(*stubData)
 	sp.w.register(d.task) // the interceptor's own goroutine now works for this task
-	sp.w.parker.Gate(sp.w.label("Validate"))
+	sp.w.work("Validate")
 	if d.variant == varProcessorError {
 		return errStub
 	}
 	return nil
 }
 func (sp *stubProcessor) Save(data process.InterceptedData, _ core.PeerID, _ string) error {
-	sp.w.parker.Gate(sp.w.label("Save"))
+	sp.w.work("Save")
 	return nil
 }
 func (sp *stubProcessor) RegisterHandler(_ func(topic string, hash []byte, data interface{})) {}
@@ -299,7 +322,7 @@ func (sp *stubProcessor) IsInterfaceNil() bool                                  
 type stubTrie struct{ w *c43world }
 
 func (st *stubTrie) GetSerializedNode(hash []byte) ([]byte, error) {
-	st.w.parker.Gate(st.w.label("GetSerializedNode"))
+	st.w.work("GetSerializedNode")
 	if len(hash) > 1 && hash[1] == varInvalid {
 		return nil, errStub
 	}
@@ -347,7 +370,7 @@ func (w *c43world) build(c *simkit.Ctx) messageHandler {
 		return mdi
 	default:
 		sender := &retrieverMock.TopicResolverSenderStub{SendCalled: func(_ []byte, _ core.PeerID) error {
-			w.parker.Gate(w.label("Send"))
+			w.work("Send")
 			return nil
 		}}
 		res, err := resolvers.NewTrieNodeResolver(resolvers.ArgTrieNodeResolver{
